@@ -24,20 +24,7 @@ TRANSLATORS = ["T-selectors-assert", "T-selectors-assume"]
 
 # genuine defects of halmos found by this check (see the final report); a failing input whose
 # `sig` matches an entry is printed as KNOWN-FINDING instead of VIOLATION
-KNOWN = [
-    {
-        "id": "C13-unicode-message",
-        "property": "C13",
-        "what": "a vm.assert*(…, string) call whose (concrete) message is not valid UTF-8 makes extract_string_argument raise UnicodeDecodeError, which no handler in SEVM.run catches: the whole test ends as ERROR whatever the asserted relation is (passing and failing inputs alike), instead of a failure reported exactly when the relation is false",
-        "match": {"defect": "unicode-message"},
-    },
-    {
-        "id": "C13-bytes-array-not-implemented",
-        "property": "C13",
-        "what": "assertEq/assertNotEq on bytes[] / string[] raise NotImplementedError, which is not a HalmosException and escapes SEVM.run: the whole test ends as ERROR (all paths lost) rather than one stuck path",
-        "match": {"defect": "bytes-array-not-implemented"},
-    },
-]
+KNOWN = common.known_for("C13")  # entries live in /verif/known_findings.json
 
 PARTIAL = ("the Coq model takes calldata as concrete bytes under a valuation (symbolic offsets/lengths are "
            "NotConcreteError => stuck, outside the model); message bytes that are symbolic are not decoded by halmos and not modelled; "
